@@ -45,6 +45,9 @@ class SourceIndex:
         def walk(body, prefix):
             for n in body:
                 if isinstance(n, (ast.FunctionDef, ast.AsyncFunctionDef)):
+                    prev = idx.get(prefix + n.name)
+                    if isinstance(prev, (ast.FunctionDef, ast.AsyncFunctionDef)) and any(_dec_name(d) in ("overload", "typing.overload") for d in prev.decorator_list):
+                        idx[prefix + n.name] = n  # @overload stubs are replaced by the later (real) definition
                     idx.setdefault(prefix + n.name, n)
                     # property setters etc. share the name; keep all
                     idx.setdefault(prefix + n.name + "#all", [])
@@ -290,6 +293,9 @@ class Interp:
                 if m is not None:
                     r = self.call_ifunc(m, [v], {})
                     return self.truthy(r)
+            bm = self.lib.builtin_method_model(v.cls, "__len__")
+            if bm is not None:
+                return self.truthy(bm(self, v))
             return True
         if isinstance(v, SGen):
             return True
@@ -458,6 +464,9 @@ class Interp:
             if m is not None:
                 r = self.call_ifunc(m, [v], {})
                 return self.iterate(r)
+            bm = self.lib.builtin_method_model(v.cls, "__iter__")
+            if bm is not None:
+                return self.iterate(bm(self, v))
         raise Unsupported(f"iteration over {v!r}")
 
     # -- class/attribute machinery ---------------------------------------------------------------
@@ -636,6 +645,22 @@ class Interp:
                 self.ex.note("assumed", f"{cls.__name__}(int) yields a member with that value (Flag composition / valid member)")
                 return SEnum(cls, v.t)
             raise Unsupported(f"enum construction {cls.__name__}({v!r})")
+        if isinstance(cls, type) and issubclass(cls, tuple) and hasattr(cls, "_fields"):
+            # typing.NamedTuple / collections.namedtuple
+            names = list(cls._fields)
+            vals = {}
+            for n, a in zip(names, args):
+                vals[n] = a
+            for n in names[len(args):]:
+                if n in kwargs:
+                    vals[n] = kwargs[n]
+                elif n in getattr(cls, "_field_defaults", {}):
+                    vals[n] = lift(cls._field_defaults[n])
+                else:
+                    self.raise_(TypeError, f"missing argument {n}")
+            o = SObj(cls, dict(vals))
+            o.fields["_items"] = STuple([vals[n] for n in names])
+            return o
         new = self.find_method(cls, "__new__")
         if new is not None:
             new.decorators = [d for d in new.decorators if d != "staticmethod"]
@@ -1114,7 +1139,7 @@ class Interp:
         if isinstance(t, ast.Name):
             self.store_name(t.id, v)
         elif isinstance(t, ast.Attribute):
-            self.setattr_(self.eval(t.value), t.attr, v)
+            self.setattr_(self.eval(t.value), self.mangle(t.attr), v)
         elif isinstance(t, (ast.Tuple, ast.List)):
             v = self.resolve(v)
             if any(isinstance(e, ast.Starred) for e in t.elts):
@@ -1178,8 +1203,19 @@ class Interp:
             return SConst(getattr(builtins, name))
         raise Unsupported(f"unresolved name {name}")
 
+    def mangle(self, attr):
+        """Python's private-name mangling inside class bodies (self.__x -> self._Class__x)."""
+        if attr.startswith("__") and not attr.endswith("__"):
+            fr = self.frames[-1]
+            f = fr.func
+            while f is not None and f.cls is None and f.closure is not None:
+                f = f.closure.func
+            if f is not None and f.cls is not None:
+                return "_" + f.cls.__name__.lstrip("_") + attr
+        return attr
+
     def eval_Attribute(self, e):
-        return self.getattr_(self.eval(e.value), e.attr)
+        return self.getattr_(self.eval(e.value), self.mangle(e.attr))
 
     def eval_Tuple(self, e):
         return STuple(self.eval_elts(e.elts))
